@@ -696,9 +696,9 @@ def tie_pipeline(run, work, rng, thorough):
     dags = [(t, p) for (t, p) in projs if not p["cyclic"] and len(p["reach"]) >= 2]
     cycs = [(t, p) for (t, p) in projs if p["cyclic"]]
     sample = [x for x in projs if x[0] not in ("all-digraphs-3", "all-digraphs-3-with-repeats", "digraphs-4-sample") and not x[0].startswith("repeat-sweep/")]
-    sample += [x for k, x in enumerate(sweeps) if k % 9 == 0]
+    sample += [x for k, x in enumerate(sweeps) if k % (5 if thorough else 16) == 0]
     rep = [x for x in projs if x[0] == "all-digraphs-3-with-repeats" and not x[1]["cyclic"] and len(x[1]["reach"]) >= 2]
-    sample += rng.sample(rep, min(len(rep), 20 if thorough else 6))
+    sample += rng.sample(rep, min(len(rep), 20 if thorough else 4))
     sample += rng.sample(dags, min(len(dags), 30 if thorough else 10)) + rng.sample(cycs, min(len(cycs), 16 if thorough else 6))
     def native(tp):
         tag, p = tp
